@@ -13,14 +13,14 @@ import (
 // Lit is the statically evaluated form of a package-level composite literal
 // (or constant). Exactly one of the fields is meaningful.
 type Lit struct {
-	Const constant.Value // basic constant (incl. []byte("x") as a string constant)
-	IsBytes bool          // Const is a string standing for a []byte
-	Elems []*Lit          // array / slice literal, by index (nil = zero value)
-	Keys  []*Lit          // map literal keys (parallel to Vals)
-	Vals  []*Lit          // map literal values
-	Obj   types.Object    // for identifiers naming a constant: the object
-	Pos   token.Pos
-	Type  types.Type
+	Const   constant.Value // basic constant (incl. []byte("x") as a string constant)
+	IsBytes bool           // Const is a string standing for a []byte
+	Elems   []*Lit         // array / slice literal, by index (nil = zero value)
+	Keys    []*Lit         // map literal keys (parallel to Vals)
+	Vals    []*Lit         // map literal values
+	Obj     types.Object   // for identifiers naming a constant: the object
+	Pos     token.Pos
+	Type    types.Type
 }
 
 // globalInit returns the initialiser expression of package-level var name.
